@@ -22,7 +22,7 @@
              7 tones, 8 full-scale sweep, 9 train of noise bursts (one per 50 ms), 10 dense harmonic tone
        e<n>  n encode calls
    Output: NDJSON.  "new" per execution, "set" per control call (request, value, return code), "enc" per
-   encode call, "end". */
+   encode call (multistream: with "sbr", each stream's OPUS_GET_BITRATE after the call), "end". */
 #include "hx_common.h"
 #include "opus.h"
 #include "opus_multistream.h"
@@ -140,7 +140,16 @@ static void do_enc(enc_t *E, int q, int maxb, int sig, float *pcm)
       js_int("ibr", opus_verif_encoder_peek(E->e, 9));
    } else {
       /* sub-packet boundaries as the library's own parser sees them: a hint that TLC re-derives with Framing!Parse */
-      int off[MAXCH + 1], no = 0, pos = 0;
+      int off[MAXCH + 1], no = 0, pos = 0, sbr[MAXCH + 1], ns = 0;
+      /* the bitrate each stream encoder was given for this call (public API: OPUS_MULTISTREAM_GET_ENCODER_STATE +
+         OPUS_GET_BITRATE); their sum against the request is judged by CvbrTrace */
+      for (i = 0; i < E->S && i < MAXCH; i++) {
+         OpusEncoder *se = NULL; opus_int32 v = 0;
+         if (opus_multistream_encoder_ctl(E->m, OPUS_MULTISTREAM_GET_ENCODER_STATE(i, &se)) != OPUS_OK || !se) break;
+         if (opus_encoder_ctl(se, OPUS_GET_BITRATE(&v)) != OPUS_OK) break;
+         sbr[ns++] = (int)v;
+      }
+      js_arr_i("sbr", sbr, ns);
       if (ret > 0) {
          off[no++] = 0;
          for (i = 0; i < E->S - 1; i++) {
